@@ -367,6 +367,9 @@ def confirm_replay(prop, path):
                            stdout=subprocess.PIPE, stderr=subprocess.STDOUT, env=env, cwd=VERIF, timeout=900)
     except subprocess.TimeoutExpired:
         return False
+    if p.returncode not in (0, 1):
+        # the confirmation run itself broke (harness error, crash): that is not "did not reproduce"
+        raise HarnessError('confirmation run of %s exited %d: %s' % (path, p.returncode, p.stdout.decode('utf8', 'replace')[-600:]))
     return p.returncode == 1 and b'VIOLATION property=' in p.stdout
 
 
